@@ -769,7 +769,11 @@ MetaDoc make_meta(Rng& r) {
     MetaDoc d;
     std::vector<std::pair<std::string, std::string>> members;   // key json, value json
     auto add_string = [&](const std::string& key, const std::string& path) {
-        const auto cps = rand_cps(r, r.chance(1, 8) ? 40 : 10);
+        auto cps = rand_cps(r, r.chance(1, 8) ? 40 : 10);
+        // text that looks like structure to anything scanning the raw document: runs of brackets inside a string, strings
+        // ending in a backslash or in an escaped quote (a Windows path, a regular expression)
+        if (r.chance(1, 6)) { const auto nb = 130 + r.below(200); for (std::uint64_t i = 0; i < nb; ++i) cps.push_back(r.chance(1, 2) ? '[' : '{'); }
+        if (r.chance(1, 5)) { const auto k = r.below(3); if (k == 0) cps.push_back('\\'); else if (k == 1) { cps.push_back('\\'); cps.push_back('\\'); } else cps.push_back('"'); }
         d.expect.emplace_back(path, cps_utf8(cps));
         return std::make_pair("\"" + key + "\"", json_encode_string(r, cps));
     };
@@ -906,6 +910,13 @@ void c38_case(Ctx& c, Rng& r) {
         else if (kind == 1) { for (std::size_t i = 0; i < depth; ++i) s += "{\"a\":"; }
         else { for (std::size_t i = 0; i < depth; ++i) s += (i % 2 ? "[" : "{\"k\":"); }
         if (r.chance(1, 2)) { s += "1"; if (kind == 0) s.append(depth, ']'); }
+        if (r.chance(1, 2)) {
+            // the nesting starts behind a string whose end is easy to misjudge (escaped backslash, escaped quote)
+            static const char* arr_pre[] = {"[\"\\\\\",", "[\"a\\\"\",", "[\"\\\\\\\\\",", "[\"]]]\\\\\","};
+            static const char* obj_pre[] = {"{\"p\":\"C:\\\\\",\"a\":", "{\"p\":\"q\\\"\",\"a\":", "{\"version\":\"1.0.0\",\"path\":\"C:\\\\\",\"extra\":"};
+            s = std::string(kind == 0 ? arr_pre[r.below(4)] : obj_pre[r.below(3)]) + s;
+            c.note("meta.deep-nesting-behind-tricky-string");
+        }
         c.note("meta.deep-nesting-inputs");
         c.note_max("meta.nesting-depth", depth);
         (void)run_meta(s, md, err);
